@@ -109,7 +109,9 @@ CASES = [
              "        if not (0.0 <= constraint_weight <= 1.0):\n            raise RuntimeError(\"Must specify constraint_weight between 0.0 and 1.0\")\n")),
     R("r-grid-predict-noise", GS, "GridSearch.predict: logger.debug before check_is_fitted, result through a temporary",
       ("        check_is_fitted(self)\n        return self.predictors_[self.best_idx_].predict(X)\n",
-       "        logger.debug(\"predict\")\n        check_is_fitted(self)\n        best = self.predictors_[self.best_idx_]\n        return best.predict(X)\n")),
+       "        logger.debug(\"predict\")\n        check_is_fitted(self)\n        best = self.predictors_[self.best_idx_]\n        return best.predict(X)\n"),
+      expect="refused", why="validation_tables.py itself emits identical text; the refusal comes from grid.py (C09, not in this package), which compares "
+                             "the body of GridSearch.predict textually and does not inline the temporary"),
     R("r-frame-demorgan-rename", MF, "_get_annotated_metric_functions: De Morgan in the first guard, the two key sets renamed",
       (FRAME1, "        if not (sample_params is None or isinstance(sample_params, dict)):\n            raise ValueError(_SAMPLE_PARAMS_NOT_DICT)\n\n        annotated_functions = {}\n"),
       (SUBSET, "        given = set(sample_params.keys())\n        known = set(metric.keys())\n"
@@ -173,4 +175,46 @@ CASES = [
     S("s-it-binary", IT, "binary labels enforced on the base predictions", ("            expect_y=True,\n            enforce_binary_labels=False,\n", "            expect_y=True,\n            enforce_binary_labels=True,\n")),
     S("s-it-y-labels", IT, "another vector passed as y", ("            y=base_predictions,\n", "            y=None,\n")),
     S("s-to-predict-unguarded", TO, "ThresholdOptimizer.predict without check_is_fitted", (TOPRED, TOPRED.replace("        check_is_fitted(self)\n", ""))),
+]
+
+# ---- gap L2/7a: an assignment that re-binds something a LATER lifted condition reads is refused; other assignments are not
+EST_GUARD = "        if self.estimator is None:\n            raise ValueError(BASE_ESTIMATOR_NONE_ERROR_MESSAGE)\n"
+CF_GUARD = "        if kwargs.get(_KW_CONTROL_FEATURES) is not None:\n"
+COSTS_HEAD = "        super(ErrorRate, self).__init__()\n        if costs is None:\n"
+GRID_HEAD = "        if selection_rule == TRADEOFF_OPTIMIZATION:\n            if not (0.0 <= constraint_weight <= 1.0):\n"
+PARITY_HEAD = "        if (difference_bound is None) and (ratio_bound is None):\n            self.eps = _DEFAULT_DIFFERENCE_BOUND\n"
+FRAME_OR = "        annotated_functions = {}\n        sample_params = sample_params or {}\n"
+CASES += [
+    R("r-rebind-to-unread-local", TO, "fit: a local no check reads is assigned (from what the checks read) before the guards",
+      (EST_GUARD, "        requested = (self.constraints, self.objective)\n" + EST_GUARD)),
+    R("r-rebind-parity-after-check", UP, "UtilityParity.__init__: ratio_bound converted AFTER its range check",
+      ("            self.ratio = ratio_bound\n", "            ratio_bound = float(ratio_bound)\n            self.ratio = ratio_bound\n")),
+    R("r-rebind-costs-copy-kept", ER, "ErrorRate.__init__: the argument is stored (read, not re-bound) before the checks",
+      (COSTS_HEAD, "        super(ErrorRate, self).__init__()\n        self._costs_arg = costs\n        if costs is None:\n")),
+    R("r-rebind-grid-after-check", GS, "GridSearch.__init__: constraint_weight converted after the range check",
+      ("        self.constraint_weight = float(constraint_weight)\n        self.objective_weight = 1.0 - constraint_weight\n",
+       "        constraint_weight = float(constraint_weight)\n        self.constraint_weight = constraint_weight\n"
+       "        self.objective_weight = 1.0 - constraint_weight\n")),
+    S("s-rebind-to-estimator", TO, "fit: the estimator defaulted before the None guard",
+      (EST_GUARD, "        self.estimator = self.estimator or object()\n" + EST_GUARD)),
+    S("s-rebind-to-kwargs", TO, "fit: kwargs emptied before the control-features guard", (CF_GUARD, "        kwargs = {}\n" + CF_GUARD)),
+    S("s-rebind-to-objective", TO, "fit: the objective overwritten before the table lookup",
+      (EST_GUARD, EST_GUARD + "        self.objective = \"accuracy_score\"\n")),
+    S("s-rebind-costs", ER, "ErrorRate.__init__: costs replaced by its absolute values before the checks",
+      (COSTS_HEAD, "        super(ErrorRate, self).__init__()\n        costs = None if costs is None else {k: abs(v) for k, v in costs.items()}\n"
+                   "        if costs is None:\n")),
+    S("s-rebind-grid-weight-clipped", GS, "GridSearch.__init__: constraint_weight clipped into [0,1] before the range check",
+      (GRID_HEAD, "        constraint_weight = min(max(constraint_weight, 0.0), 1.0)\n" + GRID_HEAD)),
+    S("s-rebind-parity-ratio", UP, "UtilityParity.__init__: ratio_bound clipped before the chain",
+      (PARITY_HEAD, "        ratio_bound = None if ratio_bound is None else min(abs(ratio_bound), 1.0)\n" + PARITY_HEAD)),
+    S("s-rebind-parity-slack", UP, "UtilityParity.__init__: ratio_bound_slack replaced by its absolute value (F24 through the back door)",
+      (PARITY_HEAD, "        ratio_bound_slack = abs(ratio_bound_slack)\n" + PARITY_HEAD)),
+    S("s-rebind-frame-params-emptied", MF, "_get_annotated_metric_functions: sample_params emptied before its keys are read",
+      (FRAME_OR, FRAME_OR + "        sample_params = {}\n")),
+    S("s-rebind-frame-default-first", MF, "_get_annotated_metric_functions: `sample_params or {}` moved before the type check (a falsy non-dict passes)",
+      (FRAME_OR, "        annotated_functions = {}\n"),
+      ("        if sample_params is not None and not isinstance(sample_params, dict):\n",
+       "        sample_params = sample_params or {}\n        if sample_params is not None and not isinstance(sample_params, dict):\n")),
+    S("s-rebind-degenerate-count", TCU, "_calculate_tradeoff_points: n_negative forced positive before the degenerate-label guard",
+      (DEGEN, "    n_negative = max(n_negative, 1)\n" + DEGEN)),
 ]
